@@ -784,7 +784,7 @@ impl<'l> ArmInstr<'l>
 			Instruction::Dmb | Instruction::Dsb | Instruction::Isb =>
 			{
 				convert!((opt: Identifier));
-				if !opt.eq_ignore_ascii_case("SV")
+				if !opt.eq_ignore_ascii_case("SY")
 				{
 					self.push_error(ctx, AsmError::ValueRange{instr: instr_name.to_owned(), idx: arg_pos});
 					return Err(ErrorLevel::Trivial);
